@@ -1095,7 +1095,29 @@ func runBorrow(r *core.Run) {
 								passes = true
 							}
 						}
-						if !passes || len(callSitesOf(r, g)) != 1 {
+						if !passes {
+							continue
+						}
+						if len(callSitesOf(r, g)) != 1 {
+							// a helper shared by several constructors (newInput(b, err)): analysed on its own with the parameter
+							// that receives the caller's slice — whole, not re-sliced — standing for that slice
+							whole := true
+							for i, a := range x.Call.Args {
+								if c.isAlias(a, 0) && i < len(g.Params) {
+									if !c.isOriginal(a) {
+										whole = false
+									}
+								}
+							}
+							if !whole {
+								continue
+							}
+							for i, a := range x.Call.Args {
+								if c.isAlias(a, 0) && i < len(g.Params) {
+									c.alias[g.Params[i]] = true
+								}
+							}
+							add(g, depth+1)
 							continue
 						}
 						for i, p := range g.Params {
